@@ -96,6 +96,25 @@ PROPS = {
         'level_text': 'Composition only: Verus proves on the real wrapper bodies that each one-shot function returns the named composition (sha_256d = sha256 o sha256, hash_160 = ripemd160 o sha256), that Hash::hmac keys the MAC with its SECOND argument and feeds the first as message for all six instantiations, that the streaming adapters absorb by concatenation (so any chunking gives the same digest), finalise to the composition of what was absorbed, reverse exactly when the flag is set, and reset to empty, and that PBKDF2 dispatches to the PRF named by the enum, returns output_length bytes and stores the salt. The primitives themselves are uninterpreted.',
         'level_note': TB + ' Cryptographic primitives are assumed, not verified.',
     },
+    'C14': {
+        'units': {
+            'interp': ['*'],
+            'hash_glue': ['Hash::sha_256', 'Hash::sha_256d', 'Hash::sha_1', 'Hash::ripemd_160', 'Hash::hash_160'],
+        },
+        'rlimit': 40,
+        'kani': [
+            {'harness': 'push_number_all_i64', 'validates': 'assumed contract of ScriptStack::push_number (minimal script number of every in-range i64)'},
+            {'harness': 'pop_number_all_short_elements', 'validates': 'assumed contract of ScriptStack::pop_number (sign-magnitude decoding of every element of 0..=5 bytes)'},
+            {'harness': 'push_bool_both', 'quick': False, 'validates': 'push_bool: true -> 01, false -> empty (also proved by Verus)'},
+            {'harness': 'pop_bool_elements_up_to_6_bytes', 'quick': False, 'bound': 'elements of at most 6 bytes', 'validates': 'bounded cross-check of pop_bool truthiness (the unbounded proof is the Verus obligation on pop_bool)'},
+        ],
+        'assumptions': ['num-bigint computes mathematical integer arithmetic; to_bytes_le / from_bytes_le are characterised by le_val / mag_le with the axioms axiom_mag_le, axiom_mag_le_unique; division truncates toward zero, the remainder takes the sign of the dividend', SHA,
+                        'implementation limit encoded in the specification: operands read with the 4-byte number reader (PICK / ROLL index, SPLIT position, NOT, 0NOTEQUAL) fail when longer than 4 bytes',
+                        'NOT covered: element-size and script-size consensus limits, OP_2MUL / OP_2DIV (treated as implementation-defined), OP_CODESEPARATOR bookkeeping (C15), signature opcodes (C15)'],
+        'design_ref': 'DESIGN.md section 4 C14/C16',
+        'level_text': 'Verus proves, separately for each of 85 opcodes (one copy of the REAL match_opcode body per opcode, verified under the precondition "the opcode is X"), that the resulting main and alt stacks are exactly bsv_step(X, stacks) as written from the Bitcoin SV script specification, and that the call fails exactly when bsv_step is None (missing operands, out-of-range index / position, unequal operand lengths, division by zero): constants, flow NOPs, VERIFY, all stack / alt-stack / splice / bitwise / comparison / arithmetic / hashing opcodes; script numbers of any size are decoded sign-magnitude little-endian and results re-encoded minimally (push_bigint, to_bigint proved against scriptnum / enc_scriptnum); truthiness is proved for every byte string; pushes put their payload on the stack; IF / NOTIF pop the condition and splice in exactly the selected branch. OP_RETURN, OP_LSHIFT, OP_RSHIFT are known findings.',
+        'level_note': TB,
+    },
     'C16': {
         'units': {
             'interp': ['*'],
@@ -210,7 +229,6 @@ PROPS = {
 }
 
 NOT_CLAIMED = {
-    'C14': 'not reached yet',
     'C15': 'not reached yet',
     'C17': 'not reached yet',
     'C18': 'not applicable to contract-based verification: the behaviour lives in serde derive expansions and in serde_json/ciborium, there is no function body in /repo to put a contract on (DESIGN.md section 5)',
